@@ -4,5 +4,6 @@ CONSTANTS
   MaxSessions = 1
   QueriesPerReader = 1
   LockBeforeBump = FALSE
+  DropSessions = TRUE
   Emit = TRUE
 CHECK_DEADLOCK FALSE
